@@ -174,9 +174,10 @@ Proof. destruct k; simpl; try rewrite negb_involutive; reflexivity. Qed.
 
 Lemma invert_involutive : forall a, invert (invert a) = a.
 Proof.
-  induction a as [|k|a IHa b IHb|a IHa b IHb]; simpl.
+  induction a as [|k|a IHa b IHb|a IHa b IHb|a IHa b IHb]; simpl.
   - reflexivity.
   - rewrite flip_involutive. reflexivity.
+  - rewrite IHa, IHb. reflexivity.
   - rewrite IHa, IHb. reflexivity.
   - rewrite IHa, IHb. reflexivity.
 Qed.
